@@ -908,7 +908,8 @@ open VlsModel VlsModel.Payments
 
 /-- the generated `Node::has_payment` is the reading `hasPay` used above, for every generated node whose invoice table
     carries the model's invoice ids (`invoice_hash`) -/
-theorem C06_fn_has_payment (n : Node) (g : Gen.FnNodeApprove.Node Hash) (h : Hash) (id : List Nat)
+theorem C06_fn_has_payment (n : Node)
+    (g : Gen.FnNodeApprove.Node (PaymentHash := Hash) (ScriptBuf := Unit) (Xpub := Unit) (PublicKey := Nat)) (h : Hash) (id : List Nat)
     (hinv : (Rs.omapGet g.state.invoices h).map (·.invoice_hash) = (n.invoices h).map (·.id)) :
     g.has_payment h id = hasPay n h id := by
   unfold Gen.FnNodeApprove.Node.has_payment hasPay
@@ -1225,4 +1226,23 @@ example :
         (some { is_counterparty_broadcaster := true, offered_htlcs := [], received_htlcs := gh [⟨7, 1500, 500⟩] })).toOption.map
       (fun s' => (Rs.omapGet s'.payments 7).map (fun p => (p.outgoing, p.outgoing_cltv_max)))
       = some (some ([(0, 1500)], some 500)) := by decide
+end VlsModel.Props.C06Fn
+
+namespace VlsModel.Props.C06Fn
+open VlsModel VlsModel.Payments
+open VlsModel.Gen.FnNodeApprove (Allowable)
+
+/-- `Node::get_state` is the protected `state` (the lock is the identity) -/
+theorem C06_fn_get_state {H S X P : Type} (g : Gen.FnNodeApprove.Node H S X P) : g.get_state = g.state := rfl
+
+/-- `Node::allowlist_contains_payee` (the `allowlisted` input of the model's `proposalOp`): membership of
+    `Allowable::Payee(payee)` in the node's allowlist; entries of the two on-chain kinds never make a payee allowlisted -/
+theorem C06_fn_allowlist_contains_payee {H S X P : Type} [DecidableEq S] [DecidableEq X] [DecidableEq P]
+    (g : Gen.FnNodeApprove.Node H S X P) (payee : P) :
+    g.allowlist_contains_payee payee = g.state.allowlist.contains (Allowable.Payee payee) ∧
+    (g.allowlist_contains_payee payee = true ↔ ∃ a ∈ g.state.allowlist, a = Allowable.Payee payee) := by
+  constructor
+  · rfl
+  · unfold Gen.FnNodeApprove.Node.allowlist_contains_payee Gen.FnNodeApprove.Node.get_state
+    simp [List.contains_iff_mem]
 end VlsModel.Props.C06Fn
